@@ -791,9 +791,10 @@ class ReachingDefs:
     (terminator).  Strong defs kill defs of the same local whose path they cover; taking `&mut L`
     or `&raw mut L` is a weak def of L (the callee receiving the reference may write it)."""
 
-    def __init__(self, body, removed_edges=()):
+    def __init__(self, body, removed_edges=(), entry=0):
         self.body = body
         self.removed_edges = set(removed_edges)
+        self.entry = entry
         self.sites = {}  # site -> (local, path, kind, payload, strong)
         self.by_local = defaultdict(list)
         nb = len(body.blocks)
@@ -905,8 +906,15 @@ class ReachingDefs:
         rel = [s for s in self.by_local.get(local, []) if _is_prefix(self.sites[s][1], path) or _is_prefix(path, self.sites[s][1])]
         relset = set(rel)
         inn = [None] * nb
-        inn[0] = frozenset(s for s in rel if s[0] == -1)
-        work = deque([0])
+        if self.entry == 0:
+            inn[0] = frozenset(s for s in rel if s[0] == -1)
+        else:
+            # analysis of one loop iteration: every local holds its (symbolic) loop-entry value
+            site = (-2, local)
+            self.sites[site] = (local, (), "entry", None, True)
+            relset.add(site)
+            inn[self.entry] = frozenset([site])
+        work = deque([self.entry])
         while work:
             b = work.popleft()
             st = set(inn[b])
@@ -1046,6 +1054,8 @@ class Terms:
     def _site_term(self, site, local, path, depth):
         l, dpath, kind, payload, strong = self.rd.sites[site]
         bb = site[0]
+        if kind == "entry":
+            return self._project(("in", l), path)
         if kind == "param":
             body = self.body
             if body.is_coroutine and l == 1 and path and isinstance(path[0], str) and path[0].isdigit():
@@ -1406,3 +1416,113 @@ def strip_sites(t):
     if len(t) == 4 and t and t[0] in ("call", "await") and isinstance(t[1], str):
         return (t[0], t[1], tuple(strip_sites(a) for a in t[2]), None)
     return tuple(strip_sites(x) if isinstance(x, (tuple, frozenset)) else x for x in t)
+
+
+
+def loops(body):
+    """natural loops: {head: set(blocks)} from back edges (target dominates source)"""
+    dom = body.dominators()
+    out = {}
+    for b in dom:
+        for sc in body.succs(b):
+            if sc in dom.get(b, ()):  # back edge b -> sc
+                blocks = {sc, b}
+                stack = [b]
+                preds = body.preds()
+                while stack:
+                    x = stack.pop()
+                    for pr in preds.get(x, []):
+                        if pr not in blocks and pr in dom and sc in dom[pr]:
+                            blocks.add(pr)
+                            stack.append(pr)
+                out.setdefault(sc, set()).update(blocks)
+    return out
+
+
+def loop_steps(program, body, head, blocks, state_locals, cap=400):
+    """Transition table of one loop iteration.  For every acyclic decision path from the loop head to
+    (a) a back edge or (b) the first block outside the loop: the branch conditions and the values of the
+    state locals at the end of the path, all expressed over the loop-entry values ('in', local).
+    Returns list of dicts {kind: 'continue'|'exit', end: bb, conds: [(term, labels)], state: {local: term}}"""
+    back = [(b, head) for b in blocks if head in body.succs(b)]
+    exits = sorted({sc for b in blocks for sc in body.succs(b) if sc not in blocks and not body.blocks[sc]["cleanup"]
+                    and (body.term(sc) or {}).get("k") != "unreachable"})
+    # post-loop join: the first block every exit reaches
+    post = None
+    if exits:
+        sets = [body.reachable(e, follow_yield_drop=False) for e in exits]
+        common = set.intersection(*sets)
+        for c in sorted(common):
+            if common <= body.reachable(c, follow_yield_drop=False):
+                post = c
+                break
+    rows = []
+    allowed = set(blocks)
+    if post is not None:
+        for e in exits:
+            allowed |= {x for x in body.reachable(e, removed_blocks=[post], follow_yield_drop=False)}
+        allowed.add(post)
+    for kind, targets in (("continue", sorted({b for b, _ in back})), ("exit", [post] if post is not None else [])):
+        for tgt in targets:
+            paths = _loop_paths(body, head, tgt, allowed if kind == "exit" else blocks, back, cap)
+            if paths is None:
+                rows.append({"kind": kind, "end": tgt, "conds": None, "state": {}})
+                continue
+            for dec in paths:
+                removed = contradicting_edges(body, dec) + back
+                rd = ReachingDefs(body, removed_edges=removed, entry=head)
+                T = Terms(program, body, rd)
+                conds = []
+                for sb, succ in dec:
+                    t = body.term(sb)
+                    conds.append((simplify_term(T.operand(t["op"], sb, "t")), edge_label(body, sb, succ), sb))
+                state = {}
+                for l in state_locals:
+                    state[l] = simplify_term(T.place(l, (), tgt, 0 if kind == "exit" else "t"))
+                rows.append({"kind": kind, "end": tgt, "conds": conds, "state": state})
+    return rows
+
+
+def _loop_paths(body, head, target, blocks, back, cap):
+    backset = set(back)
+    results = set()
+    count = [0]
+
+    def dfs(b, onpath, decisions):
+        if count[0] > cap * 20:
+            return
+        if b == target:
+            results.add(tuple(decisions))
+            count[0] += 1
+            return
+        if b not in blocks:
+            return
+        t = body.term(b)
+        succs = []
+        for lab, sc in body.succ_edges(b):
+            if lab == "drop" or (b, sc) in backset:
+                continue
+            if sc not in succs:
+                succs.append(sc)
+        is_switch = t is not None and t["k"] == "switch" and len(succs) > 1
+        for sc in succs:
+            if sc in onpath:
+                continue
+            if is_switch:
+                decisions.append((b, sc))
+            onpath.add(sc)
+            dfs(sc, onpath, decisions)
+            onpath.discard(sc)
+            if is_switch:
+                decisions.pop()
+
+    import sys
+    old = sys.getrecursionlimit()
+    sys.setrecursionlimit(max(old, 10000))
+    try:
+        dfs(head, {head}, [])
+    finally:
+        sys.setrecursionlimit(old)
+    if len(results) > cap or count[0] > cap * 20:
+        return None
+    return sorted(results)
